@@ -492,12 +492,29 @@ Proof.
   unfold st_merge. intros H. binds H. inversion H; subst. reflexivity.
 Qed.
 
+Lemma st_merge_full (s0 s' : lstate T) (d d' : dend T) c1 c2 x :
+  st_merge s0 d c1 c2 x = Ok (s', d') ->
+  exists z1 z2, nth_error (st_sizes s0) c1 = Some z1 /\ nth_error (st_sizes s0) c2 = Some z2
+    /\ st_sizes s' = set_nth (st_sizes s0) c2 (z1 + z2)
+    /\ d_steps d' = d_steps d ++ [step_new c1 c2 x (z1 + z2)] /\ d_obs d' = d_obs d.
+Proof.
+  unfold st_merge, vget, vset. intros H.
+  destruct (nth_error (st_sizes s0) c1) as [z1|]; cbn [bind] in H; [|discriminate].
+  destruct (nth_error (st_sizes s0) c2) as [z2|]; cbn [bind] in H; [|discriminate].
+  destruct (Nat.ltb_spec c2 (length (st_sizes s0))); cbn [bind] in H; [|discriminate].
+  destruct (a_remove (st_active s0) c1) as [act| |]; cbn [bind] in H; try discriminate.
+  rewrite nth_error_set_nth_eq in H by assumption. cbn [bind] in H.
+  unfold d_push in H. destruct (assert_ (d_len d <? d_obs d - 1)); cbn [bind] in H; try discriminate.
+  inversion H; subst. exists z1, z2. repeat split; reflexivity.
+Qed.
+
 Theorem gen_iter_greedy n0 s d M L i : GInv K n0 s d M L -> LB L n0 (st_queue s) M -> SPos (st_sizes s) L ->
   2 <= length L ->
   forall s' d' M' a b v sz, gen_iter K p meth (s, d, M) i = Ok (s', d', M') ->
     d_steps d' = d_steps d ++ [step_new a b v sz] -> a < b ->
     (forall x y w, In x L -> In y L -> x < y -> wcell M x y = Some w -> ltb w v = false)
-    /\ LB (without a L) n0 (st_queue s') M'.
+    /\ LB (without a L) n0 (st_queue s') M'
+    /\ (exists za zb, nth_error (st_sizes s) a = Some za /\ nth_error (st_sizes s) b = Some zb /\ sz = za + zb).
 Proof.
   intros (HA & Hwf & HMo & HN & Hnd & Hsz & Hn1 & Hz & Hzmax & HQ & Hbm & Hobs & Hcount) HLB HSP HL2 s' d' M' a' b' v' sz' H Hsteps Hab'.
   set (z := n0 - 1) in *. assert (Hzn : z < n0) by (unfold z; lia).
@@ -541,7 +558,9 @@ Proof.
   pose proof (@gen_update_lb L n0 z a b Hzmax Hzn Ha Hb Hab (st_active s) (st_sizes s) Hsz HSP HA HN s2 M dist s3 M3 HG HLB2 Hdc Hupd) as HLB3.
   destruct (st_merge s3 d a b dist) as [[s4 d4]| |] eqn:Hm; cbn [bind] in H; try discriminate.
   inversion H; subst s' d' M'.
-  destruct (@st_merge_spec T _ _ _ _ _ _ _ Hm) as (sz4 & _ & Hsteps4).
+  destruct (st_merge_full _ _ _ _ _ Hm) as (za & zb & Hza & Hzb & _ & Hsteps4 & _).
+  destruct (@gen_update_update3 T K p meth _ _ _ _ _ _ _ Hupd) as (_ & _ & _ & _ & _ & _ & Hsz3 & _).
+  rewrite Hsz3 in Hza, Hzb. unfold s2 in Hza, Hzb. cbn [st_with_queue st_with_nearest st_sizes] in Hza, Hzb.
   rewrite Hsteps4 in Hsteps. apply app_inj_tail in Hsteps. destruct Hsteps as [_ Est].
   unfold step_new in Est. destruct (Nat.ltb_spec b a); [lia|]. destruct (Nat.ltb_spec b' a'); [lia|]. inversion Est; subst a' b' v' sz'.
   rewrite (st_merge_queue _ _ _ _ _ Hm).
@@ -558,7 +577,8 @@ Proof.
     pose proof (@top_min T ltb ltb_irrefl ltb_negtrans n0 q1 HI1 HO1 kx px pa Ppx Pp0) as B2.
     pose proof (@ltb_negtrans _ _ _ B1 B2) as B3.
     exact (@ltb_negtrans _ _ _ B3 (@eqb_le _ _ Hfresh)).
-  - intros x y vv w Hx Hy Hxy _ Hw Hvv. apply without_In in Hx. apply without_In in Hy.
+  - split; [|exists za, zb; auto].
+    intros x y vv w Hx Hy Hxy _ Hw Hvv. apply without_In in Hx. apply without_In in Hy.
     exact (HLB3 x y vv w (proj1 Hx) (proj1 Hy) Hxy (proj2 Hx) Hw Hvv).
 Qed.
 
@@ -682,7 +702,7 @@ Proof.
     rewrite Hstep. cbn [bind].
     assert (HSP : SPos (st_sizes s) L).
     { intros x Hx. exists (tsize (mem x)). split; [exact (proj2 HW x Hx)|apply tsize_pos_]. }
-    destruct (@gen_iter_greedy n0 s d M L i HI HLB HSP ltac:(lia) s1 d1 M1 a b v sz Hstep Hsteps Hab) as [Hgr HLB1].
+    destruct (@gen_iter_greedy n0 s d M L i HI HLB HSP ltac:(lia) s1 d1 M1 a b v sz Hstep Hsteps Hab) as (Hgr & HLB1 & _).
     destruct (@lw_step T K meth crit crit_sym crit_merge sizes_irrelevant s s1 M M1 L mem a b v HW Hmf Ha Hb Hab) as [Hc HW1].
     pose proof HI as (_ & _ & _ & _ & Hnd & _).
     pose proof (without_length a Hnd Ha) as Hwl.
